@@ -62,7 +62,16 @@ func c10GenConf(r *rand.Rand, portBase int, gen int) ConfSpec {
 			}
 		}
 		for k := 0; k < 1+r.Intn(3); k++ {
-			svc.Keys = append(svc.Keys, KeySpec{ID: fmt.Sprintf("g%d-s%d-k%d", gen, s, k), Cipher: pick(r, cipherNames), Secret: randSecret(r)})
+			ks := KeySpec{ID: fmt.Sprintf("g%d-s%d-k%d", gen, s, k), Cipher: pick(r, cipherNames), Secret: randSecret(r)}
+			if r.Intn(2) == 0 {
+				// an id that comes back in later configurations (also in ones that fail to load), every
+				// time with a new secret (rotation), usually under the same cipher
+				ks.ID = fmt.Sprintf("s%d-k%d", s, k)
+				if r.Intn(4) > 0 {
+					ks.Cipher = cipherNames[(s+k)%len(cipherNames)]
+				}
+			}
+			svc.Keys = append(svc.Keys, ks)
 		}
 		if len(svc.Listeners) > 0 {
 			cf.Services = append(cf.Services, svc)
@@ -76,7 +85,11 @@ func c10GenConf(r *rand.Rand, portBase int, gen int) ConfSpec {
 			p += 1 + r.Intn(2)
 		}
 		for i := 0; i < 1+r.Intn(2); i++ {
-			cf.Legacy = append(cf.Legacy, LegacyKey{KeySpec{fmt.Sprintf("g%d-legacy%d", gen, i), pick(r, cipherNames), randSecret(r)}, p})
+			lk := KeySpec{fmt.Sprintf("g%d-legacy%d", gen, i), pick(r, cipherNames), randSecret(r)}
+			if r.Intn(2) == 0 {
+				lk.ID, lk.Cipher = fmt.Sprintf("legacy%d", i), cipherNames[i%len(cipherNames)]
+			}
+			cf.Legacy = append(cf.Legacy, LegacyKey{lk, p})
 		}
 	}
 	return cf
@@ -265,6 +278,20 @@ func c10History(c *vk.Ctx, r *rand.Rand, hist int, hub *TargetHub, utgt *udpTarg
 			if len(sample) > 0 {
 				probe = append(probe, sample[r.Intn(len(sample))])
 			}
+			// rotated ids: a key of this listener whose id existed before with another secret (in a
+			// configuration that was loaded, or in one that failed to load) - the new secret works,
+			// the old one does not
+			rot := 0
+			for _, k := range ep.Keys {
+				for i := len(removed) - 1; i >= 0 && rot < 2; i-- {
+					if removed[i].ID == k.ID && removed[i].Material() != k.Material() {
+						probe = append(probe, k, removed[i])
+						rot++
+						c.Count("rotated_id_probes", 1)
+						break
+					}
+				}
+			}
 			for _, k := range probe {
 				ok := true
 				if ep.Type == "tcp" {
@@ -354,6 +381,14 @@ func c10History(c *vk.Ctx, r *rand.Rand, hist int, hub *TargetHub, utgt *udpTarg
 			c.Violation("C10/reload-outcome", map[string]any{"expected": st.Expect, "got": res, "step": st, "history": trace, "log": srv.LogTail(1500)})
 			return false
 		}
+		if res != "ok" {
+			// keys that only ever appeared in a configuration that failed to load
+			for _, k := range st.Conf.AllKeys() {
+				if _, live := firstIDFor(cur.AllKeys(), k); !live {
+					removed = append(removed, k)
+				}
+			}
+		}
 		if res == "ok" {
 			for _, k := range cur.AllKeys() {
 				if _, still := firstIDFor(st.Conf.AllKeys(), k); !still {
@@ -436,7 +471,7 @@ func init() {
 		Parallel:    func(t string) int { return 5 },
 		Timeout:     func(t string) time.Duration { return 25 * time.Minute },
 		Run: func(c *vk.Ctx) {
-			for _, s := range []string{"histories", "reloads_ok", "reloads_failed", "matrix_probes", "final_goroutine_and_fd_audits"} {
+			for _, s := range []string{"histories", "reloads_ok", "reloads_failed", "matrix_probes", "rotated_id_probes", "final_goroutine_and_fd_audits"} {
 				c.Require(s)
 			}
 			c10Run(c)
